@@ -13,3 +13,7 @@ open RV.C16
 #print axioms escape_table
 #print axioms bindings_complete
 #print axioms old_iter_forgets_unbound_rows
+#print axioms bindings_complete_interleaved
+#print axioms gen_yields_prefix
+#print axioms gen_yields_all_when_dry
+#print axioms interleaved_iterators_share_rows
